@@ -3,7 +3,7 @@ import FlytModel.Model.Value
 # Property C15 as a decidable predicate on (scenario, observation)
 
 "Typed accessors are total, mutually consistent and faithful."  The predicate never calls an
-accessor of the model (`asX`, `getX`, `toSlice`, `ifaceEq`): it is evaluated by the driver on what
+accessor of the model (`asX`, `asT`, `getX`, `toSlice`, `ifaceEq`): it is evaluated by the driver on what
 the *implementation* did, and proved of the model's observation in `Props/C15.lean`.
 
 For one accessor family with zero value `z`, default `d` and expected outcome `e`
@@ -101,6 +101,24 @@ def expSlice (v : GoVal) (o : Ret SliceV) : Option SliceV :=
   | .panic => none
   | .ok s => if v.kind == .slice then some s else none
 
+/-! ### the generic accessors -/
+
+/-- is `T` the dynamic type of the value (for `T = any`: is there a value at all)? -/
+def expAs (t : GoType) (v : GoVal) : Bool :=
+  v != .nil && (t == .any || v.typeOf? == some t)
+
+/-- one instantiation: `As[T]` did not panic, succeeds exactly when the value has type `T`, then returns
+    the value itself and otherwise the zero value of `T`; `MustAs[T]` panics iff `As[T]` fails and
+    otherwise returns the same value -/
+def genOK1 (t : GoType) (v : GoVal) (o : GenObs) : Bool :=
+  match o.1 with
+  | .panic => false
+  | .ok (x, ok) =>
+    ok == expAs t v && x == (if ok then v else zeroOf t) && o.2 == (if ok then .ok x else .panic)
+
+def genOK (v : GoVal) (os : List GenObs) : Bool :=
+  os.length == genTargets.length && (genTargets.zip os).all fun p => genOK1 p.1 v p.2
+
 structure Parts where
   str : Bool
   int : Bool
@@ -108,6 +126,7 @@ structure Parts where
   bool : Bool
   slice : Bool
   map : Bool
+  gen : Bool
   toSlice : Bool
   deriving DecidableEq, Repr
 
@@ -118,9 +137,10 @@ def parts (sc : Scenario) (o : Obs) : Parts :=
     bool := famOK id false sc.d.b (expBool sc.v) o.bool
     slice := famOK elemsOf none sc.d.sl (expSlice sc.v o.toSlice) o.slice
     map := famOK id none sc.d.m (expMap sc.v) o.map
+    gen := genOK sc.v o.gen
     toSlice := toSliceOK sc.v o.toSlice }
 
-def Parts.all (p : Parts) : Bool := p.str && p.int && p.flt && p.bool && p.slice && p.map && p.toSlice
+def Parts.all (p : Parts) : Bool := p.str && p.int && p.flt && p.bool && p.slice && p.map && p.gen && p.toSlice
 
 /-- property C15 on one scenario -/
 def c15 (sc : Scenario) (o : Obs) : Bool := (parts sc o).all
